@@ -16,6 +16,7 @@ import (
 
 	"github.com/google/gce-tcb-verifier/cmd"
 	"github.com/google/gce-tcb-verifier/keys"
+	"github.com/google/gce-tcb-verifier/keys/gcpkms"
 	"github.com/google/gce-tcb-verifier/sign/gcsca"
 	"github.com/google/gce-tcb-verifier/sign/memca"
 	"github.com/google/gce-tcb-verifier/sign/nonprod"
@@ -25,6 +26,7 @@ import (
 	"github.com/google/gce-tcb-verifier/testing/nonprod/localkm"
 	"github.com/google/gce-tcb-verifier/testing/nonprod/localnonvcs"
 	"github.com/google/gce-tcb-verifier/testing/nonprod/memkm"
+	"github.com/google/gce-tcb-verifier/testing/testkms"
 	"github.com/spf13/cobra"
 )
 
@@ -53,8 +55,12 @@ type Authority struct {
 	memCA   *memca.CertificateAuthority // memca: the certificate store
 	// LongLived: the storage-backed CA object is kept across commands and probes (a long-running
 	// signer process) instead of being re-created per command.
-	LongLived bool
-	longCA    *gcsca.CertificateAuthority
+	// Layout: how the operator spelled --root_path / --cert_dir (default: the canonical spellings)
+	RootPathFlag, CertDirFlag string
+	LongLived                 bool
+	longCA                    *gcsca.CertificateAuthority
+	signerWrap                *Signer
+	kmsSrv                    *testkms.FakeKmsServer // gcpkms: the in-process Cloud KMS fake
 }
 
 // NewAuthority creates an empty authority.
@@ -71,6 +77,9 @@ func NewAuthority(c Combo) (*Authority, error) {
 	}
 	if c.KM == "memkm" {
 		a.signer = &nonprod.Signer{Rand: rand.Reader}
+	}
+	if c.KM == "gcpkms" {
+		a.kmsSrv = &testkms.FakeKmsServer{Signer: &nonprod.Signer{Rand: rand.Reader}}
 	}
 	if c.CA == "memca" {
 		a.memCA = memca.Create()
@@ -117,6 +126,12 @@ func (a *Authority) Clone() (*Authority, error) {
 			b.signer.LoadKey(k, v)
 		}
 	}
+	if a.kmsSrv != nil {
+		// the fake derives keys, versions and their numbering from the key material it holds
+		for k, v := range a.kmsSrv.Signer.Keys {
+			b.kmsSrv.Signer.LoadKey(k, v)
+		}
+	}
 	if a.memCA != nil {
 		for k, v := range a.memCA.Certs {
 			b.memCA.Certs[k] = v
@@ -127,7 +142,10 @@ func (a *Authority) Clone() (*Authority, error) {
 }
 
 // injector wraps whatever the real components put into keys.Context with the recording doubles.
-type injector struct{ t *Tap }
+type injector struct {
+	t *Tap
+	a *Authority
+}
 
 func (i *injector) InitContext(ctx context.Context) (context.Context, error) {
 	c, err := keys.FromContext(ctx)
@@ -138,7 +156,17 @@ func (i *injector) InitContext(ctx context.Context) (context.Context, error) {
 		c.Manager = &Manager{ManagerInterface: c.Manager, T: i.t}
 	}
 	if c.Signer != nil {
-		c.Signer = &Signer{Signer: c.Signer, T: i.t}
+		if i.a != nil && i.a.KM == "memkm" {
+			// the in-memory key store lives in this process across commands, and so does the signer object the
+			// commands see (one recording wrapper per authority; only its tap changes)
+			if i.a.signerWrap == nil || i.a.signerWrap.Signer != c.Signer {
+				i.a.signerWrap = &Signer{Signer: c.Signer}
+			}
+			i.a.signerWrap.T = i.t
+			c.Signer = i.a.signerWrap
+		} else {
+			c.Signer = &Signer{Signer: c.Signer, T: i.t}
+		}
 	}
 	if c.CA != nil {
 		c.CA = &CA{CertificateAuthority: c.CA, T: i.t}
@@ -153,6 +181,9 @@ func (a *Authority) components(t *Tap) (km cmd.CommandComponent, ca cmd.CommandC
 	switch a.KM {
 	case "memkm":
 		km = &memkm.T{Signer: a.signer}
+	case "gcpkms":
+		km = a.kmsManager()
+		flags = append(flags, "--project", "p", "--location", "l", "--key_ring", "r")
 	default:
 		km = &localkm.T{T: memkm.T{Signer: &nonprod.Signer{Rand: rand.Reader}}}
 		flags = append(flags, "--key_dir", filepath.Join(a.Dir, "keys"))
@@ -172,12 +203,29 @@ func (a *Authority) components(t *Tap) (km cmd.CommandComponent, ca cmd.CommandC
 		} else {
 			ca = &gcsca.CertificateAuthority{Storage: a.Storage}
 		}
-		flags = append(flags, "--bucket", bucket, "--root_path", rootPath, "--cert_dir", certDir)
+		flags = append(flags, "--bucket", bucket, "--root_path", a.rootPathFlag(), "--cert_dir", a.certDirFlag())
 	default:
 		ca = &localca.T{CA: &gcsca.CertificateAuthority{Storage: &local.StorageClient{}}}
 		flags = append(flags, "--bucket_root", filepath.Join(a.Dir, "bucketroot"), "--bucket", bucket, "--root_path", rootPath, "--cert_dir", certDir)
 	}
 	return
+}
+
+func (a *Authority) rootPathFlag() string {
+	if a.RootPathFlag != "" {
+		return a.RootPathFlag
+	}
+	return rootPath
+}
+func (a *Authority) certDirFlag() string {
+	if a.CertDirFlag != "" {
+		return a.CertDirFlag
+	}
+	return certDir
+}
+
+func (a *Authority) kmsManager() *gcpkms.Manager {
+	return &gcpkms.Manager{Project: "p", Location: "l", KeyRingID: "r", KeyClient: kmsClient{s: a.kmsSrv}, IAMClient: iamClient{}}
 }
 
 // Exec runs one CLI command ("bootstrap", "rotate", "wipeout", ...) against the authority through
@@ -187,8 +235,14 @@ func (a *Authority) Exec(t *Tap, args ...string) (err error) {
 	app := &cmd.AppComponents{
 		Endorse:         &localnonvcs.T{},
 		Bootstrap:       &cmd.PartialComponent{},
-		Global:          cmd.Compose(km, ca, &injector{t}),
+		Global:          cmd.Compose(km, ca, &injector{t, a}),
 		SignatureRandom: rand.Reader,
+	}
+	if a.KM == "gcpkms" {
+		app.Bootstrap, app.Rotate = &gcpkms.BootstrapContext{}, &gcpkms.SigningKeyContext{}
+		if len(args) > 0 && args[0] == "bootstrap" {
+			flags = append(flags, "--signing_key_operators", "serviceAccount:signer@example.com")
+		}
 	}
 	root := cmd.MakeApp(context.Background(), app)
 	root.SetOut(io.Discard)
@@ -211,6 +265,9 @@ func (a *Authority) Loaded() (*keys.Context, error) {
 	case "memkm":
 		kc.Signer = a.signer
 		kc.Manager = &memkm.T{Signer: a.signer}
+	case "gcpkms":
+		m := a.kmsManager()
+		kc.Manager, kc.Signer = m, &gcpkms.Signer{Manager: m}
 	default:
 		k := &localkm.T{T: memkm.T{Signer: &nonprod.Signer{Rand: rand.Reader}}, KeyDir: filepath.Join(a.Dir, "keys")}
 		if err := k.Init(context.Background()); err != nil {
@@ -236,7 +293,12 @@ func (a *Authority) Loaded() (*keys.Context, error) {
 
 // GcscaOn builds a gcsca authority over a storage snapshot (for C11 prefix checks).
 func GcscaOn(objs map[string][]byte) styp.CertificateAuthority {
-	return &gcsca.CertificateAuthority{Storage: FromSnapshot(objs), PrivateBucket: bucket, RootPath: rootPath, SigningCertDirInGCS: certDir}
+	return GcscaOnLayout(objs, rootPath, certDir)
+}
+
+// GcscaOnLayout: the same with the operator's spelling of --root_path / --cert_dir.
+func GcscaOnLayout(objs map[string][]byte, root, certs string) styp.CertificateAuthority {
+	return &gcsca.CertificateAuthority{Storage: FromSnapshot(objs), PrivateBucket: bucket, RootPath: root, SigningCertDirInGCS: certs}
 }
 
 // KeyNames lists the names of the keys that currently exist in the key store.
@@ -244,6 +306,10 @@ func (a *Authority) KeyNames() ([]string, error) {
 	var names []string
 	if a.KM == "memkm" {
 		for k := range a.signer.Keys {
+			names = append(names, k)
+		}
+	} else if a.KM == "gcpkms" {
+		for k := range a.kmsSrv.Signer.Keys {
 			names = append(names, k)
 		}
 	} else {
